@@ -309,7 +309,39 @@ L_OUT1 = Retort(recipe=[bound(int, INNER1)]).get_loader(int)          # f3(f1(x)
 INNER2 = INNER0.replace(strict_coercion=False)
 L_OUT2 = Retort(recipe=[bound(int, INNER2)]).get_loader(int)          # lax: the clone's own options
 L_OUT0_AGAIN = Retort(recipe=[bound(int, INNER0)]).get_loader(int)    # the original is unchanged
+# chained providers at the recursion point of a recursive model: composed exactly once at EVERY nesting level
+import dataclasses
+from adaptix import dumper, validator
+@dataclasses.dataclass
+class RNode:
+    v: int
+    children: List["RNode"] = dataclasses.field(default_factory=list)
+    nxt: Optional["RNode"] = None
+def rev(xs): return list(reversed(xs))
+def tag_node(n): return RNode(f1(n.v), n.children, n.nxt)
+def dump_tag(d): d2 = dict(d); d2["v"] = f2(d["v"]); return d2
+RC_LAST = Retort(recipe=[loader(P[RNode].children, rev, Chain.LAST), loader(RNode, tag_node, Chain.LAST), dumper(RNode, dump_tag, Chain.LAST)])
+RC_FIRST = Retort(recipe=[loader(P[RNode].children, rev, Chain.FIRST), loader(List[RNode], rev, Chain.FIRST)])
+LD_RC_LAST, DP_RC_LAST = RC_LAST.get_loader(RNode), RC_LAST.get_dumper(RNode)
+LD_RC_FIRST = RC_FIRST.get_loader(RNode)
+LD_RC_LIST = RC_FIRST.get_loader(List[RNode])
+def rec_chain(a, b, c, d):
+    data = {"v": a, "children": [{"v": b, "children": [{"v": c}, {"v": d, "nxt": {"v": a, "children": [{"v": b}, {"v": c}]}}]}, {"v": d}]}
+    def ref(dd, list_rev):
+        kids = [ref(k, list_rev) for k in dd.get("children", [])]
+        for _ in range(list_rev): kids = rev(kids)
+        return RNode(f1(dd["v"]) if list_rev == 1 else dd["v"], kids, None if dd.get("nxt") is None else ref(dd["nxt"], list_rev))
+    got = LD_RC_LAST(data)
+    if got != ref(data, 1): return False                               # rev once and tag once at each of the 3 levels
+    plain = ref(data, 0)
+    def dref(n): return {"v": f2(n.v), "children": [dref(k) for k in n.children], "nxt": None if n.nxt is None else dref(n.nxt)}
+    if DP_RC_LAST(plain) != dref(plain): return False
+    got2 = LD_RC_FIRST(data)                                           # two chained providers match the field: both composed, at every level -> identity
+    return got2 == ref(data, 2) and LD_RC_LIST([data, {"v": d}]) == rev([ref(data, 2), RNode(d)])
 ''')
+    mf.ob("recursive_chain", "a: int, b: int, c: int, d: int", "return rec_chain(a, b, c, d)", timeout=60, family="facade",
+          bounds="Chain.FIRST / Chain.LAST loaders and dumpers matching the recursion point (field, model type, List[model]) of a recursive model: composed exactly once at each of "
+                 "4 nesting levels (through a list field and an Optional field); symbolic ints")
     mf.ob("instance_before_class", "x: int", "return L_INST(x) == f1(f2(x)) and L_SUB(x) == f1(f3(f2(x)))", timeout=30,
           family="facade", bounds="x any int")
     mf.ob("extend_prepends", "x: int", "return L_EXT(x) == f3(f1(f2(x))) and L_INST(x) == f1(f2(x))", timeout=30,
